@@ -36,6 +36,7 @@ use crate::l2_shift::*;
 use crate::l3_mul::*;
 use crate::l3_div_vt::*;
 use crate::l4_modular::*;
+use crate::l4_invmod::*;
 use crate::l5_monty::*;
 use crate::l5_pow::*;
 verus! {
